@@ -33,6 +33,10 @@ def cases(seed, tier):
     for i in range(n):
         out.append({"gen": "disk", "seed": rng.randrange(2 ** 31), "mode": ["circle", "square", "custom", "square", "circle", "custom_collinear"][i % 6],
                     "cotan": (i // 6) % 2 == 1, "corners": (i // 12) % 2 == 0, "max_size": 6 if tier == "quick" else 12})
+    lens = [61, 122, 197, 244, 343, 345, 355, 359] + [rng.randint(3, 400) for _ in range(24 if tier == "quick" else 300)]
+    for i, L in enumerate(lens):
+        out.append({"gen": "disk", "seed": rng.randrange(2 ** 31), "mode": ["circle", "square", "circle", "circle"][i % 4], "cotan": False, "corners": i % 2 == 0,
+                    "max_size": 4, "border_len": L})
     for i in range(30 if tier == "quick" else 300):
         out.append({"gen": "nondisk", "seed": rng.randrange(2 ** 31)})
     return out
@@ -92,7 +96,23 @@ def _disk_case(desc, ctx):
     rng = random.Random(desc["seed"])
     cotan = desc["cotan"]
     classes = ["delaunay", "delaunay", "grid_tri", "fan"] if cotan else ["delaunay", "delaunay_ragged", "grid_tri", "fan", "delaunay_ragged"]
-    z = surfaces.make(desc["seed"], max_size=desc["max_size"], tri_only=True, disk=True, classes=classes, allow_union=False)
+    if desc.get("border_len"):
+        # two-ring disc with a prescribed border length (lengths up to 400 incl. those where a float-step arange over-runs)
+        nb_ = desc["border_len"]
+        Vl = [[0.0, 0.0, 0.0]]
+        Vl += [[0.5 * math.cos(2 * math.pi * i / nb_ + 0.1), 0.5 * math.sin(2 * math.pi * i / nb_ + 0.1), 0.05 * math.sin(3.0 * i)] for i in range(nb_)]
+        Vl += [[math.cos(2 * math.pi * i / nb_), math.sin(2 * math.pi * i / nb_) * 1.2, 0.0] for i in range(nb_)]
+        Fl = []
+        for i in range(nb_):
+            j = (i + 1) % nb_
+            Fl += [[0, 1 + i, 1 + j], [1 + i, 1 + nb_ + i, 1 + nb_ + j], [1 + i, 1 + nb_ + j, 1 + j]]
+        Vl = np.array(Vl, float)
+        if rng.random() < 0.5:
+            Vl, Fl, _ = surfaces.renumber(Vl, Fl, rng)
+        Fl = surfaces.rotate_faces(Fl, rng)
+        z = {"V": Vl, "F": [list(map(int, f)) for f in Fl], "cls": "two_ring_disc", "topo": topo.analyse(len(Vl), Fl)}
+    else:
+        z = surfaces.make(desc["seed"], max_size=desc["max_size"], tri_only=True, disk=True, classes=classes, allow_union=False)
     V, F, a = np.asarray(z["V"], float), z["F"], z["topo"]
     ref = RefSurface(len(V), F)
     loop = a["border_loops"][0]
@@ -126,7 +146,7 @@ def _disk_case(desc, ctx):
         # history: the same mesh object was embedded before with the other weighting (and other storage); the second run must not inherit anything
         ctx.cls("history:embedded_before_with_other_weights")
         kw0 = dict(kwargs)
-        kw0["save_on_corners"] = not desc["corners"]
+        kw0["save_on_corners"] = (not desc["corners"]) if rng.random() < 0.5 else desc["corners"]  # other storage, or the very same attribute name
         ok, emb0 = ctx.call("TutteEmbedding", lambda: M.parametrization.TutteEmbedding(m, bmode, use_cotan=not cotan, verbose=False, **kw0), monitor="border")
         ok, _ = ctx.call("run_previous[%s]" % mode.split("_")[0], emb0.run, monitor="border")
     else:
